@@ -407,6 +407,55 @@ Section Facts.
       destruct (lookup name fills); reflexivity.
   Qed.
 
+  (* ================= models: the full statement for BaseModel.reindex ================= *)
+  (* the fill value of a model's variable: status and iterations have their own defaults, which `fill_value` never reaches *)
+  Definition model_fill (fills : list (string * pyval)) (fv : pyval) (name : string) : pyval :=
+    if String.eqb name "status" then match lookup "status" fills with Some v => v | None => PStr "-" end
+    else if String.eqb name "iterations" then match lookup "iterations" fills with Some v => v | None => PInt (-1) end
+    else fill_for fills fv name.
+  Lemma model_fill_eq fills fv name : fill_for (with_model_defaults fills) fv name = model_fill fills fv name.
+  Proof.
+    destruct (model_defaults fills fv) as [H1 [H2 H3]]. unfold model_fill.
+    destruct (String.eqb name "status") eqn:E1; [apply String.eqb_eq in E1; subst; exact H1|].
+    destruct (String.eqb name "iterations") eqn:E2; [apply String.eqb_eq in E2; subst; exact H2|].
+    apply String.eqb_neq in E1. apply String.eqb_neq in E2. exact (H3 name E1 E2).
+  Qed.
+
+  Definition model_series_rel (ols labels : list label) (fills : list (string * pyval)) (fv : pyval)
+             (a b : string * series cell) : Prop :=
+    fst b = fst a /\ s_dtype (snd b) = s_dtype (snd a)
+    /\ exists c, fill_cell' (length labels) (s_dtype (snd a)) (model_fill fills fv (fst a)) = Ret c
+              /\ s_data (snd b) = reindexed_data ols (s_data (snd a)) c labels.
+
+  Theorem model_reindex_values (st st' : cst) (new_span : span) (new_id : Z) (fv : pyval) (strict : option bool)
+          (fills : list (string * pyval)) (fresh : Z) :
+    wf st ->
+    old_span_ok (c_span st) (span_labels new_span) ->
+    model_reindex_M pd_get_loc pd_contains cast st new_span new_id fv strict fills fresh = Ret st' ->
+    c_span st' = new_span /\ c_span_id st' = new_id /\ c_strict st' = c_strict st
+    /\ attrs_view (c_attrs st') = attrs_view (c_attrs st)
+    /\ Forall2 (model_series_rel (span_labels (c_span st)) (span_labels new_span) fills fv) (c_vars st) (c_vars st').
+  Proof.
+    intros Hwf Hok H. unfold model_reindex_M in H.
+    destruct (reindex_values st st' new_span new_id fv strict (with_model_defaults fills) fresh Hwf Hok H) as [H1 [H2 [H3 [H4 H5]]]].
+    repeat split; try assumption.
+    clear - H5. induction H5 as [|a b r r' [Ha [Hb [c [Hc Hd]]]] HF IH]; constructor; [|exact IH].
+    split; [exact Ha|]. split; [exact Hb|]. exists c. split; [|exact Hd]. rewrite <- model_fill_eq. exact Hc.
+  Qed.
+
+  (* a model's status / iterations keywords are known variables: they never trip the strict test by themselves *)
+  Lemma add_default_keys (f : list (string * pyval)) k' v k :
+    mem_name k (if mem_name k' f then f else f ++ [(k', v)]) = mem_name k f || String.eqb k k'.
+  Proof.
+    destruct (mem_name k' f) eqn:E.
+    - destruct (String.eqb k k') eqn:K; [apply String.eqb_eq in K; subst; rewrite E; reflexivity | rewrite orb_false_r; reflexivity].
+    - induction f as [|[k2 a] r IH]; simpl; [apply orb_false_r|]. simpl in E. apply orb_false_iff in E as [_ E].
+      rewrite (IH E). apply orb_assoc.
+  Qed.
+  Lemma with_model_defaults_keys fills k :
+    mem_name k (with_model_defaults fills) = mem_name k fills || String.eqb k "status" || String.eqb k "iterations".
+  Proof. unfold with_model_defaults. cbv zeta. rewrite !add_default_keys. reflexivity. Qed.
+
   (* ================= the pandas mixin: what its control flow guarantees whatever pandas / NumPy answer ================= *)
   Variable series_reindex : span -> dtype -> list cell -> span -> option string -> pyval -> outcome (list cell).
   Variable assign_cast : dtype -> list cell -> outcome (list cell).
@@ -434,5 +483,114 @@ Section Facts.
         * rewrite IHl by exact En. reflexivity.
       + intros k Hk. simpl in Hk. apply orb_false_iff in Hk as [Hk1 Hk2]. rewrite (I7 k Hk2).
         simpl. apply lookup_replace_other. intros E. subst. rewrite String.eqb_refl in Hk1. discriminate.
+  Qed.
+
+  Lemma in_names_In k l : in_names k l = true <-> In k l.
+  Proof.
+    unfold in_names. rewrite existsb_exists. split.
+    - intros [x [Hx E]]. apply String.eqb_eq in E. subst. exact Hx.
+    - intros H. exists k. split; [exact H | apply String.eqb_refl].
+  Qed.
+  Lemma in_names_false k l : ~ In k l -> in_names k l = false.
+  Proof. intros H. apply not_true_is_false. intros E. apply in_names_In in E. contradiction. Qed.
+
+  (* every variable in `names` ends up holding exactly NumPy's cast (to the dtype the core reindex kept) of what
+     Series.reindex answered for (old span, old dtype and data, new span, that variable's method, that variable's fill =
+     per-variable keyword else fill_value): the mixin's new periods are pandas' fills, not the core's *)
+  Theorem pandas_loop_var orig new_span mf fills fv : forall names r r',
+    NoDup names ->
+    pandas_loop' orig new_span mf fills fv names r = Ret r' ->
+    forall name, In name names ->
+    exists so sn vals d,
+      lookup name (c_vars orig) = Some so /\ lookup name (c_vars r) = Some sn
+      /\ series_reindex (c_span orig) (s_dtype so) (s_data so) new_span (mf name) (fill_for fills fv name) = Ret vals
+      /\ assign_cast (s_dtype sn) vals = Ret d
+      /\ lookup name (c_vars r') = Some (mkSeries (s_dtype sn) (s_id sn) d).
+  Proof.
+    induction names as [|a rest IH]; intros r r' Hnd H name Hin; [contradiction|]. simpl in H.
+    inversion Hnd as [|? ? Hna Hnd']; subst.
+    destruct (lookup a (c_vars orig)) as [so|] eqn:Eo; [|discriminate].
+    destruct (lookup a (c_vars r)) as [sn|] eqn:En; [|discriminate].
+    destruct (series_reindex (c_span orig) (s_dtype so) (s_data so) new_span (mf a) (fill_for fills fv a)) as [vals|e] eqn:Es; simpl in H; [|discriminate].
+    destruct (assign_cast (s_dtype sn) vals) as [d|e] eqn:Ea; simpl in H; [|discriminate].
+    destruct (string_dec name a) as [E|NE].
+    - subst name. exists so, sn, vals, d. repeat split; try assumption.
+      destruct (pandas_loop_frame _ _ _ _ _ _ _ _ H) as [_ [_ [_ [_ [_ [_ I7]]]]]].
+      rewrite (I7 a (in_names_false a rest Hna)). apply set_data_lookup. exact En.
+    - destruct Hin as [Hin|Hin]; [congruence|].
+      destruct (IH _ _ Hnd' H name Hin) as [so' [sn' [vals' [d' [J1 [J2 [J3 [J4 J5]]]]]]]].
+      exists so', sn', vals', d'. repeat split; try assumption.
+      rewrite <- J2. symmetry. unfold set_data; simpl. apply lookup_replace_other. exact NE.
+  Qed.
+
+  Lemma replace_lookup_id {A} k (a : A) l : lookup k l = Some a -> replace k a l = l.
+  Proof.
+    induction l as [|[k' a'] r IH]; simpl; [reflexivity|]. destruct (String.eqb k k') eqn:E; intros H.
+    - inversion H; subst. reflexivity.
+    - rewrite (IH H). reflexivity.
+  Qed.
+  (* where pandas' answer, cast back, reproduces the series the core reindex made, the mixin changes nothing *)
+  Theorem pandas_loop_noop orig new_span mf fills fv : forall names r,
+    (forall name, In name names ->
+       exists so sn, lookup name (c_vars orig) = Some so /\ lookup name (c_vars r) = Some sn
+         /\ exists vals, series_reindex (c_span orig) (s_dtype so) (s_data so) new_span (mf name) (fill_for fills fv name) = Ret vals
+                      /\ assign_cast (s_dtype sn) vals = Ret (s_data sn)) ->
+    pandas_loop' orig new_span mf fills fv names r = Ret r.
+  Proof.
+    induction names as [|a rest IH]; intros r H; simpl; [reflexivity|].
+    destruct (H a (or_introl eq_refl)) as [so [sn [Eo [En [vals [Es Ea]]]]]].
+    rewrite Eo, En, Es. simpl. rewrite Ea. simpl.
+    assert (E : set_data r a sn (s_data sn) = r).
+    { unfold set_data. destruct r as [sp sid vars attrs strict]; simpl in *. f_equal.
+      destruct sn as [dt id d]; simpl. apply replace_lookup_id. exact En. }
+    rewrite E. apply IH. intros name Hn. apply H. right. exact Hn.
+  Qed.
+
+  (* ================= the mixin as a whole ================= *)
+  Lemma Forall2_lookup (R : string * series cell -> string * series cell -> Prop) vars vars' k a :
+    Forall2 (fun x y => fst y = fst x /\ R x y) vars vars' ->
+    lookup k vars = Some a -> exists b, lookup k vars' = Some b /\ R (k, a) (k, b).
+  Proof.
+    induction 1 as [|[k1 a1] [k2 b1] r r' [Hk HR] HF IH]; simpl; [discriminate|]. simpl in Hk. subst k2.
+    destruct (String.eqb k k1) eqn:E; intros H.
+    - apply String.eqb_eq in E. subst k1. inversion H; subst. exists b1. split; [reflexivity | exact HR].
+    - exact (IH H).
+  Qed.
+
+  (* The mixin first calls the core (model) reindex WITHOUT any fill argument, then overwrites the variables in `names`.
+     So: span, strictness, attributes, variable order and dtypes are the core's; every variable outside `names` (status,
+     iterations) holds its old values at overlapping periods and '-' / -1 at new ones, whatever keywords were given. *)
+  Theorem pandas_reindex_meta (st st' : cst) (names : list string) (new_span : span) (new_id : Z) (method : option string)
+          (fv : pyval) (strict : option bool) (fills : list (string * pyval)) (l1 l2 l3 l4 l5 : list string) (fresh : Z) :
+    wf st ->
+    old_span_ok (c_span st) (span_labels new_span) ->
+    pandas_reindex_M pd_get_loc pd_contains cast series_reindex assign_cast st names new_span new_id method fv strict fills l1 l2 l3 l4 l5 fresh = Ret st' ->
+    c_span st' = new_span /\ c_span_id st' = new_id /\ c_strict st' = c_strict st
+    /\ attrs_view (c_attrs st') = attrs_view (c_attrs st)
+    /\ map fst (c_vars st') = map fst (c_vars st)
+    /\ map (fun kv => s_dtype (snd kv)) (c_vars st') = map (fun kv => s_dtype (snd kv)) (c_vars st)
+    /\ (forall k sr, in_names k names = false -> lookup k (c_vars st) = Some sr ->
+          exists sr' c, lookup k (c_vars st') = Some sr' /\ s_dtype sr' = s_dtype sr
+            /\ fill_cell' (length (span_labels new_span)) (s_dtype sr) (model_fill [] PNone k) = Ret c
+            /\ s_data sr' = reindexed_data (span_labels (c_span st)) (s_data sr) c (span_labels new_span)).
+  Proof.
+    intros Hwf Hok H. unfold pandas_reindex_M in H.
+    destruct ((match strict with None => c_strict st | Some b => b end) && existsb (fun kv => negb (in_names (fst kv) names)) fills); [discriminate|].
+    destruct (model_reindex_M pd_get_loc pd_contains cast st new_span new_id PNone None [] fresh) as [r|e] eqn:Er; simpl in H; [|discriminate].
+    destruct (model_reindex_values st r new_span new_id PNone None [] fresh Hwf Hok Er) as [M1 [M2 [M3 [M4 M5]]]].
+    destruct (pandas_loop_frame _ _ _ _ _ _ _ _ H) as [F1 [F2 [F3 [F4 [F5 [F6 F7]]]]]].
+    assert (Hkeys : map fst (c_vars r) = map fst (c_vars st) /\ map (fun kv => s_dtype (snd kv)) (c_vars r) = map (fun kv => s_dtype (snd kv)) (c_vars st)).
+    { clear - M5. induction M5 as [|a b l l' [Ha [Hb _]] HF [I1 I2]]; simpl; [split; reflexivity|]. rewrite Ha, Hb, I1, I2. split; reflexivity. }
+    destruct Hkeys as [K1 K2].
+    split; [rewrite F1; exact M1|]. split; [rewrite F2; exact M2|]. split; [rewrite F4; exact M3|].
+    split; [rewrite F3; exact M4|]. split; [rewrite F5; exact K1|]. split; [rewrite F6; exact K2|].
+    intros k sr Hk Hl. rewrite (F7 k Hk).
+    destruct (Forall2_lookup (fun a b => s_dtype (snd b) = s_dtype (snd a)
+                 /\ exists c, fill_cell' (length (span_labels new_span)) (s_dtype (snd a)) (model_fill [] PNone (fst a)) = Ret c
+                           /\ s_data (snd b) = reindexed_data (span_labels (c_span st)) (s_data (snd a)) c (span_labels new_span))
+               (c_vars st) (c_vars r) k sr) as [b [Hb [Hd [c [Hc Hdata]]]]].
+    - clear - M5. induction M5 as [|a b l l' [Ha [Hb Hc]] HF IH]; constructor; [|exact IH]. split; [exact Ha|]. split; [exact Hb | exact Hc].
+    - exact Hl.
+    - simpl in *. exists b, c. split; [exact Hb|]. split; [exact Hd|]. split; [exact Hc | exact Hdata].
   Qed.
 End Facts.
